@@ -301,5 +301,4 @@ def run(ctx: vlib.Ctx):
                    "correspondence harness tools/props/c04.py + tools/harness/text.py (differential; exhaustive small scope + seeded random)",
                    "modelled, validated not verified: control flow of lexer.py / parser.py / emitter.py as transcribed in lean/text/Octave/Model"]
     ctx.assumptions = ["Env: NFC, Unicode classes and repr(float) are supplied per case from the running CPython",
-                       "proved so far at pattern level (escape/unescape inverse, quoted lexeme re-lexes to one STRING token, reserved-prefix quoting); "
-                       "document-level composition and bare/number lexemes are covered by the exhaustive correspondence + oracle only"]
+                       "proved for every value: escape/unescape inverse; quoted / bare strings, booleans, null, integers survive emit -> tokenize -> parse inside flat documents and block trees (Props/C01roundtrip, C01tree); ints within the 4300-digit limit and float reprs re-lex to the same value (C04numbers); list / inline-map / META positions and NFC (F16) are decided by the exhaustive correspondence + oracle"]
